@@ -43,6 +43,7 @@ structure DMon where
   core   : Mon.MonS String String := { store := false, jsonMode := false }   -- the typed monitor core
   gone   : List String := []                                                -- sessions that were deleted / killed
   extra10 : Option String := none                                           -- op-level clause of the last record
+  inflight : List (String × Nat) := []                                      -- (session, id): calls accepted and not yet finished by their handler
 
 structure DState where
   cfg    : Option Cfg := none
@@ -357,6 +358,22 @@ def modelOp (d : DState) (toks : List String) : Option OpOut :=
         let s1 := if dup then s1 else { s1 with parked := s1.parked ++ ids }
         let (d2, s2) := settle d1 s1
         { d := putSess d2 s2, snaps := [n] }
+  | "duprace" :: n :: _ =>
+    -- two POSTs with the same call ids; the first (exchange nex+1) is held inside `EventStore.Open` — i.e. in front of
+    -- its check-and-register section — while the second (exchange nex+2) runs: the second is served first
+    let ids := parseIds (kvGet toks "ids")
+    let v := parseVer (kvGet toks "hv")
+    some <| withSess d n fun s =>
+      if s.gone then let (d1, t) := handlerExch d 404; { d := d1, extra := [t], endsX := [d1.nex], snaps := [n] } else
+      let dup := (dedup ids).any fun r => (s.conn.reqStreams r).isSome
+      let c1 := step s.conn (.post ids false v none)      -- B
+      let c2 := step c1 (.post ids false v none)          -- A: refused, the id is in flight now
+      let s1 := { s with conn := c2, reqIds := s.reqIds ++ ids, exMap := s.exMap ++ [d.nex + 2, d.nex + 1] }
+      let s1 := ((List.range s1.conn.nextSid).filter fun sid => (s1.conn.store sid).isSome).foldl nameSid s1
+      let s1 := if dup then s1 else { s1 with parked := s1.parked ++ ids }
+      let d1 := { d with nex := d.nex + 2 }
+      let (d2, s2) := settle d1 s1
+      { d := putSess d2 s2, snaps := [n] }
   | "listen" :: n :: _ =>
     let id := ((kvGet toks "id").bind String.toNat?).getD 0
     let s : DSess := { name := n, conn := init (mkCfg d true), stateless := true, newProto := true, listenS := true, parked := [id], reqIds := [id] }
@@ -687,7 +704,33 @@ def DMon.onRecord (m : DMon) (d : DState) (toks : List String) (impl : String) :
     | ["delete", n] => ({ m with gone := m.gone ++ [n] }, none)
     | ["kill", n] => ({ m with gone := m.gone ++ [n] }, none)
     | _ => (m, none)
-  ({ m with extra10 := extra }, r.2)
+  -- C02 on the streamable server: a call is refused as "duplicate in-flight id" only if one of its ids IS in flight.
+  -- In flight = accepted by an earlier POST of the session and its handler has not finished (`resp` is the handler finishing,
+  -- whether or not its response could be delivered).
+  let opened : List (Nat × String) := itoks.filterMap fun t =>
+    if t.startsWith "x" && !t.contains '+' && !t.contains '!' then
+      match t.splitOn ":" with
+      | [xk, kind] => some (parseX xk, kind)
+      | _ => none
+    else none
+  let (m, extra02) : DMon × Option String := match toks with
+    | "call" :: n :: _ =>
+      if !n.startsWith "s" || m.gone.contains n then (m, none) else
+      let ids := (parseIds (kvGet toks "ids")).eraseDups
+      match opened.head? with
+      | some (_, kind) =>
+        if kind == "sse" || kind == "json" then ({ m with inflight := m.inflight ++ ids.map fun r => (n, r) }, none)
+        else if kind == "400" && !(ids.any fun r => m.inflight.contains (n, r)) then
+          (m, some "C02: a well-formed call whose id is not in flight (its earlier user has been answered or its response was dropped as undeliverable) was refused as a duplicate in-flight id")
+        else (m, none)
+      | none => (m, none)
+    | "duprace" :: n :: _ =>
+      let ids := (parseIds (kvGet toks "ids")).eraseDups
+      if opened.any (fun x => x.2 == "sse" || x.2 == "json") then ({ m with inflight := m.inflight ++ ids.map fun r => (n, r) }, none)
+      else (m, none)
+    | ["resp", n, r, _] => ({ m with inflight := m.inflight.erase (n, r.toNat?.getD 0) }, none)
+    | _ => (m, none)
+  ({ m with extra10 := extra.orElse fun _ => extra02 }, r.2)
 
 /-! ## engine -/
 
@@ -723,8 +766,10 @@ def engine (prop : String) : Engine DState where
         let (m, v) := d.mon.onRecord dn toks impl
         -- first violated clause of the requested property: typed core, then the op-level clause
         let v08 := v.v08.map Mon.Clause08.text
-        let v10 := (v.v10.map Mon.Clause10.text).orElse fun _ => m.extra10
-        let mviol := if prop == "C08" then v08 else if prop == "C10" then v10 else v10.orElse fun _ => v08
+        let ext := fun (p : String) => m.extra10.filter (·.startsWith p)
+        let v10 := (v.v10.map Mon.Clause10.text).orElse fun _ => ext "C10"
+        let mviol := if prop == "C08" then v08 else if prop == "C10" then v10 else if prop == "C02" then ext "C02"
+          else (v10.orElse fun _ => v08).orElse fun _ => ext "C02"
         let crashed := impl.startsWith "panic" || (words impl).contains "w=panic" || (impl.splitOn "PANIC").length > 1
         let viol := if crashed then some ((if prop == "" then "C08" else prop) ++ ": the server panicked while handling this operation")
                     else mviol
